@@ -33,9 +33,14 @@ def stmt_failure(desc, ints, peaks, dt):
     pattern = cl.pattern_from_desc(desc)
     frames = ints.astype(dt)[np.newaxis]
     ref_frames = ints.astype('f8')[np.newaxis]
-    for name, fn in (('process_frames_fast', cc.process_frames_fast), ('process_frames_full', cc.process_frames_full)):
+    frames0 = frames.copy()
+    # call history on ONE typed array (full, then fast, then full again): no call may depend on an earlier one, and the frames
+    # passed in must not be modified (np.asarray does not copy an array that already has the requested dtype)
+    for name, fn in (('process_frames_full', cc.process_frames_full), ('process_frames_fast', cc.process_frames_fast), ('process_frames_full', cc.process_frames_full)):
         try:
             a = fn(pattern, frames, np.asarray(peaks))
+            if not np.array_equal(frames, frames0):
+                return '%s modified the %s frames passed in' % (name, dt)
         except Exception as e:  # noqa
             return '%s raised %s for dtype %s: %s' % (name, type(e).__name__, dt, str(e)[:200])
         b = fn(pattern, ref_frames, np.asarray(peaks))
